@@ -476,6 +476,11 @@ def corpus():
     out = []
     # the README session
     man = b"source=dtn://node1/bla\ndestination=dtn://node2/incoming\nlifetime=1h\n"
+    # a payload of more than 10 MiB, from stdin and from a file: "every payload" (implementation only; the oracle compares with the
+    # reference encoding)
+    bigp = bytes((i * 17 + 9) % 256 for i in range(10 * 1024 * 1024 + 4097))
+    out.append("CLIX" + cli_line(1627483500707, [b"bp7", b"encode", b"@m", b"-"], bigp, [(b"@m", man)])[3:])
+    out.append("CLIX" + cli_line(1627483500707, [b"bp7", b"encode", b"@m", b"@p"], b"", [(b"@m", man), (b"@p", bigp[:3 * 1024 * 1024 + 1])])[3:])
     out.append(cli_line(1627483500707, [b"bp7", b"encode", b"@m", b"-", b"-x"], b"hallo welt\n", [(b"@m", man)]))
     out.append(cli_line(1627483500707, [b"bp7", b"encode", b"@m", b"@p"], b"", [(b"@m", man), (b"@p", b"hallo welt\n")]))
     out.append(cli_line(1, [b"bp7", b"decode", b"9f880700008201702f2f6e6f6465322f696e636f6d696e6782016b2f2f6e6f6465312f626c61820100821b0000009e8d137d23001a0036ee8085010100004c4b68616c6c6f2077656c740aff", b"-p"]))
@@ -729,6 +734,12 @@ def canon(out):
 
 
 def same(line, io, mo):
+    if line.startswith("CLIX "):
+        return True                # implementation + oracle only
+    return _same(line, io, mo)
+
+
+def _same(line, io, mo):
     """model/implementation differences that are NOT a broken correspondence: invocations the property does not speak about, and the
     wording of the text `dtntime` prints for a time beyond year 9999 (only 'prints something, exit 0' is specified there)"""
     if not in_domain(line):
